@@ -270,10 +270,10 @@ func verifC47Run(t *testing.T, quick, thorough int) {
 					corr = append(corr, "nonpositive-amount")
 				case 7: // not an address
 					short := e.addrText
-				if len(short) > 0 {
-					short = short[:len(short)-1]
-				}
-				e.addrText = rapid.SampledFrom([]string{"", "erd1", "garbage", short, e.addrText + "q", "0x" + e.addrText}).Draw(rt, "garbage")
+					if len(short) > 0 {
+						short = short[:len(short)-1]
+					}
+					e.addrText = rapid.SampledFrom([]string{"", "erd1", "garbage", short, e.addrText + "q", "0x" + e.addrText}).Draw(rt, "garbage")
 					e.addrBytes = nil
 					noClaim = true
 					corr = append(corr, "garbage-address")
